@@ -1,0 +1,58 @@
+//go:build verif
+
+// Contracts for package recovery, checked by /verif/govc (comment-only file; compiled only
+// with the build tag "verif", which no build of the application uses).
+package recovery
+
+//@ pure func validRetry(c RetryConfig) bool = c.BaseDelay >= 0 && c.MaxDelay >= 0 && c.BackoffFactor >= 1.0 && c.MaxDelay <= 9000000000000000000
+
+// A missing or permission-denied file is never worth a retry, however the os error is wrapped.
+//@ pure func noTypedNil(e error) bool = istype(e, *errors.AppError) ==> astype(e, *errors.AppError) != nil
+//@ func (*DatabaseRecovery).shouldRetry
+//@   requires noTypedNil(err)
+//@   ensures[C15.no-retry-missing] errorsIs(err, fs.ErrNotExist) ==> !result
+//@   ensures[C15.no-retry-perm] errorsIs(err, fs.ErrPermission) ==> !result
+//@   ensures[C15.no-retry-perm-type] istype(err, *errors.AppError) && astype(err, *errors.AppError) != nil && astype(err, *errors.AppError).Type == errors.ErrorTypePermission ==> !result
+
+// calculateDelay: within [0, MaxDelay], and equal to the capped exponential (monotone in attempt by
+// the lemma below).
+//@ pure func delayReal(c RetryConfig, attempt int) float64 = min(real(c.BaseDelay) * math.Pow(c.BackoffFactor, real(attempt - 1)), real(c.MaxDelay))
+//@ func (*DatabaseRecovery).calculateDelay
+//@   requires validRetry(dr.retryConfig) && attempt >= 1
+//@   ensures[C15.delay-range] 0 <= result && result <= dr.retryConfig.MaxDelay
+//@   ensures[C15.delay-formula] real(result) <= delayReal(dr.retryConfig, attempt) && delayReal(dr.retryConfig, attempt) < real(result) + 1.0
+
+//@ axiom pow-monotone forall b, y1, y2 float64 :: b >= 1.0 && 0.0 <= y1 && y1 <= y2 ==> math.Pow(b, y1) <= math.Pow(b, y2)
+//@ lemma C15.delay-monotone forall c RetryConfig, a int :: validRetry(c) && a >= 1 ==> delayReal(c, a) <= delayReal(c, a + 1)
+
+// loadWithRetry: at most MaxAttempts loads; exactly one when the file is missing or unreadable.
+//@ func (*DatabaseRecovery).loadWithRetry
+//@   requires validRetry(dr.retryConfig)
+//@   modifies nothing
+//@   ensures[C15.attempts-bound] calls("database.LoadDatabaseWithPersonal") <= max(dr.retryConfig.MaxAttempts, 0)
+//@   ensures[C15.missing-once] dr.retryConfig.MaxAttempts >= 1 && (fileMissing(primaryPath) || filePermDenied(primaryPath)) ==> calls("database.LoadDatabaseWithPersonal") == 1
+//@   ensures[C15.retry-shape] (result1 == nil) <==> (result0 != nil)
+//@   ensures[C15.retry-fails-missing] fileMissing(primaryPath) || filePermDenied(primaryPath) || dr.retryConfig.MaxAttempts < 1 ==> result1 != nil
+//@   ensures[C15.retry-real] dr.retryConfig.MaxAttempts >= 1 && loadsOK(primaryPath) && (loadsOK(personalPath) || fileMissing(personalPath)) ==> result1 == nil
+//@ loop 1
+//@   invariant attempt >= 1 && calls("database.LoadDatabaseWithPersonal") == attempt - 1 && attempt <= max(dr.retryConfig.MaxAttempts, 0) + 1
+//@   invariant attempt > 1 ==> lastErr != nil && !errorsIs(lastErr, fs.ErrNotExist) && !errorsIs(lastErr, fs.ErrPermission)
+//@   invariant attempt == 1 ==> lastErr == nil
+//@   invariant attempt > 1 ==> !fileMissing(primaryPath) && !filePermDenied(primaryPath)
+//@   invariant attempt > 1 ==> !(loadsOK(primaryPath) && (loadsOK(personalPath) || fileMissing(personalPath)))
+//@   decreases dr.retryConfig.MaxAttempts - attempt + 1
+
+//@ func (*DatabaseRecovery).loadEmbeddedDatabase
+//@   modifies nothing
+//@   ensures[C15.embedded] result1 == nil && result0 != nil && fresh(result0) && len(result0.Commands) == 11
+//@ func (*DatabaseRecovery).createMinimalDatabase
+//@   modifies nothing
+//@   ensures[C15.minimal] result1 == nil && result0 != nil && fresh(result0) && len(result0.Commands) == 2
+
+// Loading for a search always ends with a usable database and no error.
+//@ func (*DatabaseRecovery).LoadDatabaseWithFallback
+//@   requires validRetry(dr.retryConfig)
+//@   ensures[C15.always-usable] result1 == nil && result0 != nil
+//@   ensures[C15.fallback-nonempty] fileMissing(primaryPath) || filePermDenied(primaryPath) || dr.retryConfig.MaxAttempts < 1 ==> len(result0.Commands) >= 1
+//@ loop 1
+//@   invariant $i <= 0
